@@ -146,4 +146,44 @@ Section P.
         destruct (accessor F fconv (acc_meth k) _); simpl; try reflexivity;
         unfold lift; destruct (convert F fconv k _); reflexivity.
   Qed.
+
+  Ltac lets_const c Hc :=
+    erewrite ceval_cextract with (c := c); [simpl | reflexivity | reflexivity | reflexivity | exact Hc].
+
+  Lemma not_shift_valid op k : op_valid op k = true -> is_shift op = false.
+  Proof. destruct op; simpl; intros; try reflexivity; discriminate. Qed.
+
+  (* x(env) OP c *)
+  Lemma sound_bin_vc op sb k (i : inputs) p s :
+    tmpl_valid (TBin op ShVC sb k) = true -> inputs_ok (TBin op ShVC sb k) i ->
+    run (roots_of (TBin op ShVC sb k) i) (closure_of_tmpl (TBin op ShVC sb k)) p s = spec_tmpl (TBin op ShVC sb k) i p s.
+  Proof.
+    intros Hv [Hx Hc]. destruct i as [fx fy c sh]. simpl in *.
+    pose proof (not_shift_valid _ _ Hv) as Hns.
+    unfold Model.run, Sem.denote. destruct sb; simpl; lets_assert; lets_const c Hc;
+      (destruct (norm_const k c) as [c'| | |] eqn:Hn; try reflexivity; simpl;
+       unfold bind, ret, lift; simpl;
+       destruct (fx p s) as [[a s1]| | |] eqn:Ex; try reflexivity;
+       apply Hx in Ex;
+       rewrite (binop_val_spec k) by (first [exact Hns | apply wf_has_ty; assumption | eapply norm_const_ty; eassumption]);
+       destruct (go_binop k op a c') as [v| | |] eqn:E; simpl; try reflexivity;
+       rewrite coerce_typed by (eapply @go_binop_typed; exact E); reflexivity).
+  Qed.
+
+  (* c OP y(env) *)
+  Lemma sound_bin_cv op sb k (i : inputs) p s :
+    tmpl_valid (TBin op ShCV sb k) = true -> inputs_ok (TBin op ShCV sb k) i ->
+    run (roots_of (TBin op ShCV sb k) i) (closure_of_tmpl (TBin op ShCV sb k)) p s = spec_tmpl (TBin op ShCV sb k) i p s.
+  Proof.
+    intros Hv [Hc Hy]. destruct i as [fx fy c sh]. simpl in *.
+    pose proof (not_shift_valid _ _ Hv) as Hns.
+    unfold Model.run, Sem.denote. destruct sb; simpl; lets_const c Hc;
+      (destruct (norm_const k c) as [c'| | |] eqn:Hn; try reflexivity; simpl; lets_assert;
+       unfold bind, ret, lift; simpl;
+       destruct (fy p s) as [[b s1]| | |] eqn:Ey; try reflexivity;
+       apply Hy in Ey;
+       rewrite (binop_val_spec k) by (first [exact Hns | apply wf_has_ty; assumption | eapply norm_const_ty; eassumption]);
+       destruct (go_binop k op c' b) as [v| | |] eqn:E; simpl; try reflexivity;
+       rewrite coerce_typed by (eapply @go_binop_typed; exact E); reflexivity).
+  Qed.
 End P.
